@@ -108,6 +108,13 @@ Definition denote (pomdp : bool) (prog : list stmt) : model :=
           (tab3 (hS H) (hA H) (hS H) (cell_val H WR prog))
           (if pomdp then tab3 (hS H) (hA H) (hO H) (cell_val H WW prog) else []).
 
+(* ---------------------------------------------------------------- the three forms of the same data *)
+(* a row written as single entries, a matrix written as rows *)
+Definition entries_of_row (t : tbl) (a s : idx) (vs : list val) : list stmt :=
+  map (fun kv => SEntry t a s (INum (fst kv)) (snd kv)) (combine (seq 0 (length vs)) vs).
+Definition rows_of_mat (t : tbl) (a : idx) (rows : list (list val)) : list stmt :=
+  map (fun kr => SRowIn t a (INum (fst kr)) (snd kr)) (combine (seq 0 (length rows)) rows).
+
 (* ---------------------------------------------------------------- well-formed programs *)
 Definition idx_wf (names : list str) (size : nat) (ix : idx) : Prop :=
   match ix with
@@ -328,3 +335,219 @@ Fixpoint rendersb_go (H : hdr) (prog : list stmt) (ls : list lline) : bool :=
   | st :: rest => renders_stmtb H st (firstn (nlines st) ls) && rendersb_go H rest (skipn (nlines st) ls)
   end.
 Definition rendersb (prog : list stmt) (ls : list lline) : bool := rendersb_go (hdr_of prog) prog ls.
+
+(* ================================================================ the printer (character level) *)
+(* A text is a list of formatted lines; a formatted line is: leading blanks, a first token, then
+   (separator, token) pairs, trailing blanks.  A separator is a run of blanks or a colon with blanks
+   around it.  All the freedom the format leaves (spacing, which spelling for a number, which first
+   word after the letter T/O/R, extra ignored tokens) is a parameter [sfmt] of the printer. *)
+Definition blank : ascii := " "%char.
+Definition colon : ascii := ":"%char.
+Definition newline : ascii := "010"%char.
+Definition sp (n : nat) : str := repeat blank n.
+
+Inductive sep := SepB (n : nat) | SepC (a b : nat).
+Definition render_sep (s : sep) : str :=
+  match s with SepB n => sp (S n) | SepC a b => sp a ++ colon :: sp b end.
+
+Record fline := mkFline { fl_lead : nat; fl_head : str; fl_rest : list (sep * str); fl_trail : nat }.
+Definition render_core (l : fline) : str :=
+  fl_head l ++ flat_map (fun p => render_sep (fst p) ++ snd p) (fl_rest l).
+Definition render_line (l : fline) : str := sp (fl_lead l) ++ render_core l ++ sp (fl_trail l).
+Definition render_text (ls : list fline) : str := flat_map (fun l => render_line l ++ [newline]) ls.
+
+Record sfmt := mkSfmt {
+  f_lead : nat -> nat;            (* blanks before line k of the statement *)
+  f_trail : nat -> nat;           (* blanks after line k *)
+  f_colon : nat -> nat * nat;     (* blanks before / after the k-th colon *)
+  f_gap : nat -> nat -> nat;      (* extra blanks before value c of line r *)
+  f_head : str;                   (* the first word: "T", "Trans", "O", "R", "#", ... *)
+  f_num : nat -> str;             (* spelling of the k-th numeric index (or of a size declared by number) *)
+  f_val : nat -> nat -> str;      (* spelling of value c of row r *)
+  f_word : str;                   (* the word after "values:", the observation field of an R line *)
+  f_extra : list str              (* extra tokens, ignored by the parser *)
+}.
+
+Definition sepc (f : sfmt) (k : nat) : sep := SepC (fst (f_colon f k)) (snd (f_colon f k)).
+
+(* the token for index [ix] at slot [k] *)
+Definition idx_spelling (f : sfmt) (k : nat) (ix : idx) : str :=
+  match ix with IStar => star | INum _ => f_num f k | IName nm => nm end.
+
+(* value tokens of row r, each preceded by at least one blank *)
+Definition val_items (f : sfmt) (r : nat) (start : nat) (n : nat) : list (sep * str) :=
+  map (fun c => (SepB (f_gap f r c), f_val f r c)) (seq start n).
+Definition extra_items (f : sfmt) : list (sep * str) := map (fun t => (SepB 0, t)) (f_extra f).
+
+(* a line holding a vector of n >= 1 values (row r of the statement, printed as line [ln]) *)
+Definition vec_fline (f : sfmt) (ln r n : nat) : fline :=
+  mkFline (f_lead f ln) (f_val f r 0) (val_items f r 1 (n - 1)) (f_trail f ln).
+
+Definition kw_states : str := ["s"; "t"; "a"; "t"; "e"; "s"]%char.
+Definition kw_actions : str := ["a"; "c"; "t"; "i"; "o"; "n"; "s"]%char.
+Definition kw_observations : str := ["o"; "b"; "s"; "e"; "r"; "v"; "a"; "t"; "i"; "o"; "n"; "s"]%char.
+Definition kw_discount : str := ["d"; "i"; "s"; "c"; "o"; "u"; "n"; "t"]%char.
+Definition kw_values : str := ["v"; "a"; "l"; "u"; "e"; "s"]%char.
+
+Definition decl_toks (f : sfmt) (d : decl) : list str :=
+  match d with DNum _ => [f_num f 0] | DNames l => l end.
+
+Definition decl_fline (f : sfmt) (kw : str) (toks : list str) : fline :=
+  match toks with
+  | [] => mkFline (f_lead f 0) kw [] (f_trail f 0)
+  | t :: r => mkFline (f_lead f 0) kw ((sepc f 0, t) :: map (fun u => (SepB 0, u)) r) (f_trail f 0)
+  end.
+
+Definition print_stmt (f : sfmt) (st : stmt) : list fline :=
+  match st with
+  | SStates d => [decl_fline f kw_states (decl_toks f d)]
+  | SActions d => [decl_fline f kw_actions (decl_toks f d)]
+  | SObs d => [decl_fline f kw_observations (decl_toks f d)]
+  | SDiscount _ => [decl_fline f kw_discount [f_val f 0 0]]
+  | SValues => [decl_fline f kw_values [f_word f]]
+  | SOther => [mkFline (f_lead f 0) (f_head f) (extra_items f) (f_trail f 0)]
+  | SEntry _ a s e _ =>
+      [mkFline (f_lead f 0) (f_head f)
+               ((sepc f 0, idx_spelling f 0 a) :: (sepc f 1, idx_spelling f 1 s) :: (sepc f 2, idx_spelling f 2 e)
+                :: (SepB (f_gap f 0 0), f_val f 0 0) :: extra_items f) (f_trail f 0)]
+  | SRowIn _ a s vs =>
+      [mkFline (f_lead f 0) (f_head f)
+               ((sepc f 0, idx_spelling f 0 a) :: (sepc f 1, idx_spelling f 1 s) :: val_items f 0 0 (length vs)) (f_trail f 0)]
+  | SRowNext _ a s vs =>
+      [mkFline (f_lead f 0) (f_head f) [(sepc f 0, idx_spelling f 0 a); (sepc f 1, idx_spelling f 1 s)] (f_trail f 0);
+       vec_fline f 1 0 (length vs)]
+  | SMat _ a rows =>
+      mkFline (f_lead f 0) (f_head f) ((sepc f 0, idx_spelling f 0 a) :: extra_items f) (f_trail f 0)
+      :: map (fun r => vec_fline f (S r) r (length (nth r rows []))) (seq 0 (length rows))
+  | SRew a s e _ =>
+      [mkFline (f_lead f 0) (f_head f)
+               ((sepc f 0, idx_spelling f 0 a) :: (sepc f 1, idx_spelling f 1 s) :: (sepc f 2, idx_spelling f 2 e)
+                :: (sepc f 3, f_word f) :: (SepB (f_gap f 0 0), f_val f 0 0) :: extra_items f) (f_trail f 0)]
+  end.
+
+(* statement i is printed with format [fmt i] *)
+Fixpoint print_lines (fmt : nat -> sfmt) (i : nat) (prog : list stmt) : list (list fline) :=
+  match prog with [] => [] | st :: r => print_stmt (fmt i) st :: print_lines fmt (S i) r end.
+Definition print (fmt : nat -> sfmt) (prog : list stmt) : str := render_text (concat (print_lines fmt 0 prog)).
+
+(* ---- when a format is admissible for a statement *)
+Definition tokchar (c : ascii) : bool := negb (is_space c) && negb (is_colon c).
+Definition clean (t : str) : Prop := t <> [] /\ forallb tokchar t = true.
+(* first character that cannot start a keyword or a T / O / R line *)
+Definition safe_char (c : ascii) : bool :=
+  negb (Ascii.eqb "v" c || Ascii.eqb "s" c || Ascii.eqb "a" c || Ascii.eqb "o" c || Ascii.eqb "d" c
+        || Ascii.eqb "T" c || Ascii.eqb "O" c || Ascii.eqb "R" c).
+Definition safe_first (t : str) : Prop := match t with c :: _ => safe_char c = true | [] => False end.
+
+Definition idx_ok (names : list str) (f : sfmt) (k : nat) (ix : idx) : Prop :=
+  match ix with
+  | IStar => True
+  | INum n => clean (f_num f k) /\ stoul (f_num f k) = Ok (N.of_nat n) /\ f_num f k <> star /\ ~ In (f_num f k) names
+  | IName nm => clean nm
+  end.
+Definition val_ok (f : sfmt) (r c : nat) (v : val) : Prop :=
+  clean (f_val f r c) /\ safe_first (f_val f r c) /\ stod (f_val f r c) = Ok v.
+Definition vals_ok (f : sfmt) (r : nat) (vs : list val) : Prop :=
+  forall c v, nth_error vs c = Some v -> val_ok f r c v.
+Definition head_ok (f : sfmt) (letter : ascii) : Prop :=
+  exists more, f_head f = letter :: more /\ forallb tokchar more = true.
+Definition letter_of (t : tbl) : ascii := match t with TT => "T"%char | TO => "O"%char end.
+Definition decl_ok (f : sfmt) (d : decl) : Prop :=
+  match d with
+  | DNum n => clean (f_num f 0) /\ stoul (f_num f 0) = Ok (N.of_nat n)
+  | DNames l => l <> [] /\ Forall clean l /\ (forall t, l = [t] -> forall n, stoul t <> Ok n)
+  end.
+
+Definition fmt_ok (H : hdr) (f : sfmt) (st : stmt) : Prop :=
+  Forall clean (f_extra f) /\
+  match st with
+  | SStates d | SActions d | SObs d => decl_ok f d
+  | SDiscount v => clean (f_val f 0 0) /\ stod (f_val f 0 0) = Ok v
+  | SValues => clean (f_word f)
+  | SOther => clean (f_head f) /\ safe_first (f_head f)
+  | SEntry t a s e v =>
+      head_ok f (letter_of t) /\ idx_ok (nmA H) f 0 a /\ idx_ok (nmS H) f 1 s /\ idx_ok (d3n H t) f 2 e /\ val_ok f 0 0 v
+  | SRowIn t a s vs =>
+      head_ok f (letter_of t) /\ idx_ok (nmA H) f 0 a /\ idx_ok (nmS H) f 1 s /\ vals_ok f 0 vs
+  | SRowNext t a s vs =>
+      head_ok f (letter_of t) /\ idx_ok (nmA H) f 0 a /\ idx_ok (nmS H) f 1 s /\ vs <> [] /\ vals_ok f 0 vs
+  | SMat t a rows =>
+      head_ok f (letter_of t) /\ idx_ok (nmA H) f 0 a /\
+      (forall r row, nth_error rows r = Some row -> row <> [] /\ vals_ok f r row)
+  | SRew a s e v =>
+      head_ok f "R"%char /\ idx_ok (nmA H) f 0 a /\ idx_ok (nmS H) f 1 s /\ idx_ok (nmS H) f 2 e /\
+      clean (f_word f) /\ val_ok f 0 0 v
+  end.
+
+Fixpoint fmts_ok (H : hdr) (fmt : nat -> sfmt) (i : nat) (prog : list stmt) : Prop :=
+  match prog with [] => True | st :: r => fmt_ok H (fmt i) st /\ fmts_ok H fmt (S i) r end.
+
+(* ================================================================ texts that do not define a complete valid model *)
+(* [t] is neither `*`, nor a declared name, nor a number below the bound: an unknown name or an
+   out-of-range index *)
+Definition bad_tok (names : list str) (size : nat) (t : str) : Prop :=
+  t <> star /\ ~ In t names /\
+  (stoul t = Throw E_stoul \/ exists v, stoul t = Ok v /\ (N.of_nat size <= v)%N).
+
+(* the dimension the k-th token of a "T:"/"O:" line indexes: 1 = action, 2 = state, 3 = end state / observation *)
+Definition slot_names (H : hdr) (t : tbl) (k : nat) : list str :=
+  match k with 1 => nmA H | 2 => nmS H | _ => d3n H t end.
+Definition slot_size (H : hdr) (t : tbl) (k : nat) : nat :=
+  match k with 1 => hA H | 2 => hS H | _ => d3s H t end.
+
+(* a block of lines, standing where a statement is expected, that makes the file malformed *)
+Inductive defect (pomdp : bool) (H : hdr) : list lline -> Prop :=
+  | D_index : forall l t k tok more,          (* unknown name / index out of range in a T or O line *)
+      l_kind l = kind_of_tbl t -> live pomdp t = true -> 1 <= k -> k <= l_colons l -> l_colons l <= 3 ->
+      nth_error (l_toks l) k = Some tok -> bad_tok (slot_names H t k) (slot_size H t k) tok ->
+      defect pomdp H (l :: more)
+  | D_index_reward : forall l k tok more,     (* the same in an R line *)
+      l_kind l = KR -> l_colons l = 4 -> 1 <= k -> k <= 3 ->
+      nth_error (l_toks l) k = Some tok -> bad_tok (slot_names H TT k) (slot_size H TT k) tok ->
+      defect pomdp H (l :: more)
+  | D_row_count : forall l t more,            (* "T: a : s v1 .. vk" with k <> 0 and k <> D3 *)
+      l_kind l = kind_of_tbl t -> live pomdp t = true -> l_colons l = 2 ->
+      length (l_toks l) <> 3 -> length (l_toks l) <> 3 + d3s H t ->
+      defect pomdp H (l :: more)
+  | D_next_count : forall l t nl more,        (* "T: a : s" followed by a vector of the wrong length *)
+      l_kind l = kind_of_tbl t -> live pomdp t = true -> l_colons l = 2 -> length (l_toks l) = 3 ->
+      length (l_stoks nl) <> d3s H t ->
+      defect pomdp H (l :: nl :: more)
+  | D_mat_count : forall l t nl more,         (* "T: a" followed by a first row of the wrong length *)
+      l_kind l = kind_of_tbl t -> live pomdp t = true -> l_colons l = 1 ->
+      length (l_stoks nl) <> d3s H t ->
+      defect pomdp H (l :: nl :: more)
+  | D_colons : forall l t more,               (* a T or O line without colon or with more than three *)
+      l_kind l = kind_of_tbl t -> live pomdp t = true -> (l_colons l = 0 \/ 3 < l_colons l) ->
+      defect pomdp H (l :: more)
+  | D_colons_reward : forall l more,          (* an R line that does not have exactly four colons *)
+      l_kind l = KR -> l_colons l <> 4 ->
+      defect pomdp H (l :: more).
+
+(* ---- valid models (what the Model constructors accept) *)
+Fixpoint qsum (l : list Q) : Q := match l with [] => 0%Q | x :: t => (x + qsum t)%Q end.
+Definition row_dist (r : list val) : Prop :=
+  exists qs, r = map VQ qs /\ Forall (fun q => (0 <= q)%Q) qs /\
+             (qsum qs - 1 <= epsSmall)%Q /\ (1 - qsum qs <= epsSmall)%Q.
+Definition tab_dist (t : tab) : Prop := Forall (Forall row_dist) t.
+Definition disc_valid (d : val) : Prop := exists q, d = VQ q /\ (0 < q)%Q /\ (q <= 1)%Q.
+Definition model_ok (pomdp : bool) (m : model) : Prop :=
+  disc_valid (mDisc m) /\ tab_dist (mT m) /\ (pomdp = true -> tab_dist (mW m)).
+
+(* the ways in which the lexed lines [ls] fail to define a complete valid model *)
+Inductive incomplete (pomdp : bool) (ls : list lline) : Prop :=
+  | Inc_missing : forall prog lss,            (* a size is not declared (or declared as 0) *)
+      Forall2 (renders_stmt (hdr_of prog)) prog lss -> ls = concat lss ->
+      (hS (hdr_of prog) = 0 \/ hA (hdr_of prog) = 0 \/ (pomdp = true /\ hO (hdr_of prog) = 0)) ->
+      incomplete pomdp ls
+  | Inc_defect : forall pre_prog post_prog lss_pre lss_post bad,   (* a malformed statement after well-formed ones *)
+      let H := hdr_of (pre_prog ++ post_prog) in
+      wf pomdp (pre_prog ++ post_prog) ->
+      Forall2 (renders_stmt H) pre_prog lss_pre -> Forall2 (renders_stmt H) post_prog lss_post ->
+      defect pomdp H bad ->
+      Forall (fun l => match l_kind l with KT | KO | KR | KOther => True | _ => False end) bad ->
+      ls = concat lss_pre ++ bad ++ concat lss_post ->
+      incomplete pomdp ls
+  | Inc_invalid : forall prog,                (* well-formed, but the tables are not probabilities / bad discount *)
+      wf pomdp prog -> renders prog ls -> ~ model_ok pomdp (denote pomdp prog) ->
+      incomplete pomdp ls.
